@@ -559,6 +559,25 @@ fn find_in_items(items: &[syn::Item], path: &[String]) -> Option<Found> {
                         continue;
                     }
                 }
+                // `Type@Trait::items@`: the names of the functions and constants this impl defines
+                // (cfg-active ones), in order: what is NOT listed comes from the trait's defaults
+                if path.len() == 2 && path[1] == "items@" {
+                    let names: Vec<String> = i
+                        .items
+                        .iter()
+                        .filter_map(|ii| match ii {
+                            syn::ImplItem::Fn(f) if cfg_active(&f.attrs) => Some(f.sig.ident.to_string()),
+                            syn::ImplItem::Const(c) if cfg_active(&c.attrs) => Some(c.ident.to_string()),
+                            _ => None,
+                        })
+                        .collect();
+                    return Some(Found {
+                        line: i.span().start().line,
+                        params: "[]".to_string(),
+                        body: format!("[{}]", names.iter().map(|n| format!("(EPath [{}])", cstr(n))).collect::<Vec<_>>().join("; ")),
+                        tokens: names.join(","),
+                    });
+                }
                 for ii in &i.items {
                     // an associated constant is printed as a parameterless function whose body is
                     // the constant's expression
